@@ -301,7 +301,7 @@ def _files_info(members: list[Member], with_attributes: bool, with_mtime: bool) 
 
 
 def write_7z(members: list[Member], *, method: str = "copy", layout: str = "solid",
-             encode_header: bool = False, aes_marker: bool = False,
+             encode_header: bool = False, aes_marker: bool = False, aes_header: bool | str = False,
              with_attributes: bool = True, with_mtime: bool = True, crc: bool = True) -> bytes:
     """Serialize `members` into a 7z archive.  See the module docstring for the byte layout.
 
@@ -344,6 +344,23 @@ def write_7z(members: list[Member], *, method: str = "copy", layout: str = "soli
     # The header goes into one more pack stream behind the file streams; the next header becomes
     # kEncodedHeader followed by a StreamsInfo that describes that single LZMA folder.
     coder_id, props, header_packed = _compress("lzma", header)
+    if aes_header:
+        # 7z -mhe: the header folder is LZMA then 7zAES; the pack stream is ciphertext (emulated by a keystream XOR:
+        # nobody without the key can read the file list), padded to the AES block size.
+        import hashlib
+        ks = b"".join(hashlib.sha256(b"vf-7z-mhe" + i.to_bytes(4, "little")).digest() for i in range(len(header_packed) // 32 + 2))
+        cipher = bytes(a ^ b for a, b in zip(header_packed + bytes(-len(header_packed) % 16), ks))
+        encoded = bytes([K_ENCODED_HEADER])
+        encoded += _pack_info(len(packed), [len(cipher)])
+        if aes_header == "7zip":
+            # 7-Zip's own order: coder 0 = LZMA (main coder), coder 1 = 7zAES; bind pair InIndex 0 <- OutIndex 1.
+            coders = number(2) + _coder(coder_id, props) + _coder(ID_AES, AES_PROPS) + number(0) + number(1)
+            encoded += _unpack_info([coders], [[len(header), len(header_packed)]], [crc32(header)])
+        else:
+            coders = number(2) + _coder(ID_AES, AES_PROPS) + _coder(coder_id, props) + number(1) + number(0)
+            encoded += _unpack_info([coders], [[len(header_packed), len(header)]], [crc32(header)])
+        encoded += bytes([K_END])
+        return raw_header_archive(encoded, packed + cipher)
     encoded = bytes([K_ENCODED_HEADER])
     encoded += _pack_info(len(packed), [len(header_packed)])
     encoded += _unpack_info([number(1) + _coder(coder_id, props)], [[len(header)]], [crc32(header)])
